@@ -253,3 +253,12 @@ def compose_ok(out, exps, others):
             e = "nothing"
         want += [o] if e == "OE" else []
     return out.kind == "return" and isinstance(out.value, Seq) and len(out.value.items) == len(want) and all(x is y for x, y in zip(out.value.items, want))
+
+
+def derive_single(h, C, fn, cls, pos, d, uh, filt):
+    """Derived contribution of one link (used by C09's relational check)."""
+    h.reset()
+    a, links, others = build(h, [(cls, pos)])
+    cb = mkfilter(filt)
+    out = h.call(fn, a, C[d], C[uh], cb)
+    return classify(out, others[0], a)
